@@ -514,61 +514,8 @@ func c01() []*Ob {
 				}
 			}},
 		{Prop: "C01", ID: "C01.8", Engine: "PROV(verbatim error)", Floor: 2,
-			Desc: "short reads reach Replay: ReadLimiter.ReadAt, DocBlocksReader.getDocBlockLen and ReadDocBlock return the error of the underlying ReadAt verbatim on every path after the read (Replay recognises the torn tail only by err == io.EOF)",
-			Check: func(c *Ctx) {
-				for _, it := range []struct {
-					fn string
-					m  Matcher
-				}{
-					{"(*disk.ReadLimiter).ReadAt", Callee("(*os.File).ReadAt")},
-					{"(*disk.DocBlocksReader).getDocBlockLen", Callee("(*disk.ReadLimiter).ReadAt")},
-					{"(*disk.DocBlocksReader).ReadDocBlock", Callee("(*disk.ReadLimiter).ReadAt", "(*disk.DocBlocksReader).getDocBlockLen")},
-				} {
-					fn := c.Fn(it.fn)
-					if fn == nil {
-						continue
-					}
-					calls := CallsIn(fn, it.m)
-					if len(calls) == 0 {
-						c.Undecided("verbatim:nocall:"+it.fn, fn.Pos(), "%s no longer performs the read this rule is about", it.fn)
-						continue
-					}
-					for _, rp := range ReturnPaths(fn, ErrorResultIndex(fn)) {
-						// the last read that dominates this return decides
-						var last ssa.CallInstruction
-						for _, cl := range calls {
-							ci := cl.(ssa.Instruction)
-							if ci.Block() == rp.At || ci.Block().Dominates(rp.At) {
-								if last == nil || Dominates(last.(ssa.Instruction), ci) {
-									last = cl
-								}
-							}
-						}
-						if last == nil {
-							continue
-						}
-						ev := ErrorResult(last)
-						switch {
-						case ev != nil && SameValue(rp.Val, ev):
-							c.Site(rp.Ret.Pos(), "%s returns the error of %s verbatim", it.fn, CallName(last))
-						case ev != nil && IsNilConst(rp.Val) && KnownNil(rp.Facts, ev):
-							c.Site(rp.Ret.Pos(), "%s returns nil only under %s err == nil", it.fn, CallName(last))
-						case DefinitelyNonNil(rp.Val, rp.Facts) && func() bool {
-							// an earlier read's own error returned under its != nil test
-							for _, cl := range calls {
-								if e := ErrorResult(cl); e != nil && SameValue(rp.Val, e) {
-									return true
-								}
-							}
-							return false
-						}():
-							c.Site(rp.Ret.Pos(), "%s returns a failed read's error", it.fn)
-						default:
-							c.Violation("verbatim:"+it.fn+":"+CallName(last), rp.Ret.Pos(), "%s returns %s instead of the error of %s: a short read (torn tail) is no longer reported as io.EOF to Replay", it.fn, Short(rp.Val.String()), CallName(last))
-						}
-					}
-				}
-			}},
+			Desc:  "short reads reach Replay: ReadLimiter.ReadAt, DocBlocksReader.getDocBlockLen and ReadDocBlock return the error of the underlying ReadAt verbatim on every path after the read (Replay recognises the torn tail only by err == io.EOF)",
+			Check: func(c *Ctx) { readErrorsVerbatim(c) }},
 		{Prop: "C01", ID: "C01.7", Engine: "FILESTATE", Floor: 10,
 			Desc:  "loader totality on the active-fraction file sets: no crash prefix of fraction creation, sealing or release makes the loader reach a fatal sink (the store always comes back up)",
 			Check: func(c *Ctx) { fileStateObligations(c, "C01") }},
@@ -767,6 +714,104 @@ func truncateOnlyAtEOF(c *Ctx) {
 					c.Site(rp.Ret.Pos(), "ReadDocBlock returns the block at its declared length (short reads are visible to Replay)")
 				}
 			}
+		}
+	}
+}
+
+// readErrorsVerbatim: rule body of C01.8. The readers are found, not listed: starting from (*os.File).ReadAt, a
+// function of package disk that calls a reader and returns that call's error verbatim on every path after the
+// call is a reader itself (ReadLimiter.ReadAt, a private readAt wrapper, getDocBlockLen, ...). The anchors must
+// be readers in that sense.
+func readErrorsVerbatim(c *Ctx) {
+	readers := map[string]bool{"(*os.File).ReadAt": true}
+	isReader := func(cl ssa.CallInstruction) bool { return readers[CallName(cl)] }
+	type verdict struct {
+		ok    bool
+		sites []func()
+		bad   []func()
+	}
+	check := func(fn *ssa.Function) (v verdict, hasRead bool) {
+		name := FuncName(fn)
+		calls := CallsIn(fn, isReader)
+		if len(calls) == 0 || ErrorResultIndex(fn) < 0 {
+			return verdict{}, false
+		}
+		v.ok = true
+		for _, rp := range ReturnPaths(fn, ErrorResultIndex(fn)) {
+			rp := rp
+			// the last read that dominates this return decides
+			var last ssa.CallInstruction
+			for _, cl := range calls {
+				ci := cl.(ssa.Instruction)
+				if ci.Block() == rp.At || ci.Block().Dominates(rp.At) {
+					if last == nil || Dominates(last.(ssa.Instruction), ci) {
+						last = cl
+					}
+				}
+			}
+			if last == nil {
+				continue
+			}
+			lastName := CallName(last)
+			ev := ErrorResult(last)
+			switch {
+			case ev != nil && SameValue(rp.Val, ev):
+				v.sites = append(v.sites, func() { c.Site(rp.Ret.Pos(), "%s returns the error of %s verbatim", name, lastName) })
+			case ev != nil && IsNilConst(rp.Val) && KnownNil(rp.Facts, ev):
+				v.sites = append(v.sites, func() { c.Site(rp.Ret.Pos(), "%s returns nil only under %s err == nil", name, lastName) })
+			case DefinitelyNonNil(rp.Val, rp.Facts) && func() bool {
+				// an earlier read's own error returned under its != nil test
+				for _, cl := range calls {
+					if e := ErrorResult(cl); e != nil && SameValue(rp.Val, e) {
+						return true
+					}
+				}
+				return false
+			}():
+				v.sites = append(v.sites, func() { c.Site(rp.Ret.Pos(), "%s returns a failed read's error", name) })
+			default:
+				v.ok = false
+				v.bad = append(v.bad, func() {
+					c.Violation("verbatim:"+name+":"+lastName, rp.Ret.Pos(), "%s returns %s instead of the error of %s: a short read (torn tail) is no longer reported as io.EOF to Replay", name, Short(rp.Val.String()), lastName)
+				})
+			}
+		}
+		return v, true
+	}
+	for round := 0; round < 4; round++ {
+		grew := false
+		for _, fn := range c.P.FuncsInPkg("disk") {
+			if readers[FuncName(fn)] || fn.Parent() != nil {
+				continue
+			}
+			if v, has := check(fn); has && v.ok {
+				readers[FuncName(fn)] = true
+				grew = true
+			}
+		}
+		if !grew {
+			break
+		}
+	}
+	for _, name := range []string{"(*disk.ReadLimiter).ReadAt", "(*disk.DocBlocksReader).getDocBlockLen", "(*disk.DocBlocksReader).ReadDocBlock"} {
+		fn := c.Fn(name)
+		if fn == nil {
+			continue
+		}
+		delete(readers, name) // judged on what it calls, not on itself
+		v, has := check(fn)
+		if !has {
+			c.Undecided("verbatim:nocall:"+name, fn.Pos(), "%s no longer performs the read this rule is about", name)
+			continue
+		}
+		for _, f := range v.sites {
+			f()
+		}
+		for _, f := range v.bad {
+			f()
+		}
+		if v.ok {
+			readers[name] = true
 		}
 	}
 }
